@@ -128,7 +128,7 @@ def check(case):
             b.add(k, n), both.add(k, n)
             true[k] = true.get(k, 0) + n
         a.join(b)
-        if list(a._bins) != list(both._bins):
+        if core.cms_bins(a) != core.cms_bins(both):
             return "bins after join differ from the sketch fed both streams"
         if case["flip"]:
             # a sketch joined into itself is the sketch fed its stream twice (below the limits)
@@ -136,7 +136,7 @@ def check(case):
             for k, n in b_ops + b_ops:
                 twice.add(k, n)
             b.join(b)
-            if list(b._bins) != list(twice._bins) or b.elements_added != twice.elements_added:
+            if core.cms_bins(b) != core.cms_bins(twice) or b.elements_added != twice.elements_added:
                 return "a sketch joined into itself differs from the sketch fed its stream twice"
         if a.elements_added != both.elements_added:
             return f"total after join {a.elements_added} != {both.elements_added}"
